@@ -4,7 +4,7 @@
    s        = ANY state of the Segmenter (buffers, delimiter stack) the call starts from;
    x        = the Input (range, direction, face, language ...).
    pre e x  = 0 <= RunStart < RunEnd <= len(Text), and the bidi run ends are strictly increasing up to the range length. *)
-From TV Require Import Model.Itemize Spec.Itemize Proofs.Itemize.
+From TV Require Import Lib.Bytes Model.Itemize Spec.Itemize Proofs.Itemize Model.ItemizeBidi Spec.ItemizeBidi Proofs.ItemizeBidi.
 
 (* runs are consecutive, non-empty, cover [RunStart, RunEnd) exactly; Text, Size, FontFeatures untouched; no panic *)
 Theorem split_partition : forall e s x, pre e x ->
@@ -116,4 +116,138 @@ Example ex_runs2 :
     /\ neutrals_ok (e_text ex_env2) (intervals_of None ex_in) [] [r1; r2; r3] = false.
 Proof. do 3 eexists. split; [vm_compute; reflexivity|]. repeat split; vm_compute; reflexivity. Qed.
 Example ex_empty : i_end (set_end ex_in 0) <= i_start (set_end ex_in 0).
+Proof. cbn. lia. Qed.
+
+(* ======================================================================================================================
+   From the raw text: splitByBidi itself (paragraph loop, isParagraphSeparator, splitParagraphByBidi, appendBidiRun) is
+   part of the model (Model/ItemizeBidi.v).  te : tenv = the runes of Input.Text, golang.org/x/text/unicode/bidi as ANY
+   function xbidi from (string of one paragraph, default direction) to its run list, and the observation records.
+   tpre te x = 0 <= RunStart < RunEnd <= len(Text) = number of observation records, and xbidi_wf: on each paragraph of
+   the range the x/text runs (if any) have strictly increasing ends, the last one at the last rune of the paragraph
+   (evaluated against the real x/text on every case of the run). *)
+
+(* the paragraphs of the range, exactly: they follow each other from RunStart to RunEnd, none is empty, none has a
+   paragraph separator (bidi class B: LF CR FS GS RS NEL PS) before its last rune, and each ends at RunEnd or with a
+   separator - so CR LF is two paragraphs, the second one the LF alone, and a separator ending the range opens no
+   further paragraph *)
+Theorem paragraph_boundaries : forall rn x, i_start x <= i_end x ->
+  pchain (i_start x) (i_end x) (paragraphs_of rn x) /\ Forall (para_shape rn (i_end x)) (paragraphs_of rn x).
+Proof. exact paragraph_boundaries_lemma. Qed.
+Print Assumptions paragraph_boundaries.
+
+(* ... and which pairs are paragraphs: [a, b) is one iff a is RunStart or the position behind a separator, and b is where
+   the scan `for RunEnd < text.RunEnd && !isParagraphSeparator(Text[RunEnd-1])` started at a + 1 stops *)
+Theorem paragraph_membership : forall rn x a b, i_start x <= i_end x ->
+  (In (a, b) (paragraphs_of rn x) <->
+   i_start x <= a < i_end x /\ (a = i_start x \/ is_para_sep (znth 0 rn (a - 1)) = true) /\ b = para_end rn a (i_end x)).
+Proof. exact paragraph_membership_lemma. Qed.
+Print Assumptions paragraph_membership.
+
+(* splitByBidi never panics nor runs out of fuel; its runs are consecutive, non-empty and cover the range; the run list
+   it defines satisfies bidi_wf - the hypothesis `pre` of the theorems above is discharged *)
+Theorem bidi_runs_wf : forall te x, tpre te x ->
+  exists b, split_by_bidi_text (t_xbidi te) (t_runes te) x = Ok b /\ chainb (i_start x) (i_end x) b = true
+            /\ text_bidi (t_xbidi te) (t_runes te) x = Some (flat_of x b)
+            /\ bidi_wf (i_end x - i_start x) (Some (flat_of x b)) = true.
+Proof. exact bidi_runs_wf_lemma. Qed.
+Print Assumptions bidi_runs_wf.
+
+(* appendBidiRun: neighbouring runs of splitByBidi never have the same direction, also across paragraphs *)
+Theorem bidi_runs_alternate : forall te x, tpre te x ->
+  exists b, split_by_bidi_text (t_xbidi te) (t_runes te) x = Ok b /\ alternating b = true.
+Proof. exact bidi_alternate_lemma. Qed.
+Print Assumptions bidi_runs_alternate.
+
+(* Split from the text is Split of Model/Itemize.v on the run list splitByBidi computes, and that list is well formed *)
+Theorem split_text_refines : forall te s x, tpre te x ->
+  pre (env_of_text te x) x /\ split_text te s x = split (env_of_text te x) s x.
+Proof. exact split_text_refines_lemma. Qed.
+Print Assumptions split_text_refines.
+
+(* END TO END, from the runes and the paragraph direction: the whole specification (partition, bidi, script,
+   orientation, face, language) holds of the runs Split returns, and every rune of every paragraph lies in a run
+   reporting the direction x/text gave to that rune within its own paragraph *)
+Theorem itemization_sound_text : forall te s x, tpre te x ->
+  exists runs, split_text_runs te s x = Ok runs /\ check_itemization (env_of_text te x) x runs = true
+               /\ parity_text_ok (t_xbidi te) (t_runes te) x runs = true.
+Proof. exact sound_text_lemma. Qed.
+Print Assumptions itemization_sound_text.
+
+(* paragraphs are analysed independently (defect F26 and its repair): when two calls - any two texts, ranges,
+   Segmenter states, fontmaps, languages; the same x/text and paragraph direction - both contain a paragraph with the
+   same string, the runes of that paragraph are reported with the same directions in both results, whatever the other
+   paragraphs contain and wherever the paragraph lies *)
+Theorem paragraphs_independent : forall xb e1 e2 rn1 rn2 s1 s2 x1 x2 out1 out2 a1 b1 a2 b2 j,
+  tpre (mkTenv xb rn1 e1) x1 -> tpre (mkTenv xb rn2 e2) x2 -> d_prog (i_dir x1) = d_prog (i_dir x2) ->
+  split_text_runs (mkTenv xb rn1 e1) s1 x1 = Ok out1 -> split_text_runs (mkTenv xb rn2 e2) s2 x2 = Ok out2 ->
+  In (a1, b1) (paragraphs_of rn1 x1) -> In (a2, b2) (paragraphs_of rn2 x2) ->
+  para_string rn1 a1 b1 = para_string rn2 a2 b2 ->
+  0 <= j < b1 - a1 -> 0 <= j < b2 - a2 ->
+  dir_at out1 (a1 + j) = dir_at out2 (a2 + j) /\ dir_at out1 (a1 + j) <> None.
+Proof. exact paragraphs_independent_lemma. Qed.
+Print Assumptions paragraphs_independent.
+
+(* the result does not depend on the Segmenter's state or history (no hypothesis: also for panicking calls) *)
+Theorem split_text_state_independent : forall te s x, split_text_runs te s x = split_text_runs te seg_zero x.
+Proof. exact text_state_independent_lemma. Qed.
+Print Assumptions split_text_state_independent.
+
+Theorem split_text_history_independent : forall h te x s,
+  run_history_text h seg_zero = Ok s -> split_text_runs te s x = split_text_runs te seg_zero x.
+Proof. exact text_history_lemma. Qed.
+Print Assumptions split_text_history_independent.
+
+Theorem text_history_total : forall h,
+  (forall te x, In (te, x) h -> tpre te x \/ i_end x <= i_start x) -> exists s, run_history_text h seg_zero = Ok s.
+Proof. exact text_history_total_lemma. Qed.
+Print Assumptions text_history_total.
+
+Theorem split_text_empty_range : forall te s x, i_end x <= i_start x ->
+  exists runs, split_text_runs te s x = Ok runs /\ empty_ok (t_env te) x runs = true.
+Proof. exact text_empty_range_lemma. Qed.
+Print Assumptions split_text_empty_range.
+
+(* non-vacuity: the F26 witness "a\nא", and "א\r\nא" with its lone LF *)
+Definition ex_xb (p : list Z) (def : bool) : option (list (Z * bool)) :=
+  if list_Z_eqb p [97; 10] then Some [(1, false)]
+  else if list_Z_eqb p [1488] then Some [(0, true)]
+  else if list_Z_eqb p [1488; 13] then Some [(1, true)]
+  else None.                                  (* "\n" alone: no run *)
+Definition ex_o (sc : Z) : obs := mkObs sc (-1) false [] [(-1, 1)].
+Definition ex_te1 : tenv :=
+  mkTenv ex_xb [97; 10; 1488] (mkEnv [ex_o ex_latn; ex_o SC_COMMON; ex_o ex_hebr] None None (fun _ => true) (fun _ => 0) false).
+Definition ex_te2 : tenv :=
+  mkTenv ex_xb [1488; 13; 10; 1488]
+         (mkEnv [ex_o ex_hebr; ex_o SC_COMMON; ex_o SC_COMMON; ex_o ex_hebr] None None (fun _ => true) (fun _ => 0) false).
+Definition ex_in3 : input := mkIn 1 0 3 (mkDir false false false false) 0 1 640 0 (-1).
+Definition ex_in4 : input := mkIn 1 0 4 (mkDir false false false false) 0 1 640 0 (-1).
+Example ex_tpre1 : tpre ex_te1 ex_in3. Proof. split; reflexivity. Qed.
+Example ex_tpre2 : tpre ex_te2 ex_in4. Proof. split; reflexivity. Qed.
+Example ex_paragraphs : paragraphs_of (t_runes ex_te1) ex_in3 = [(0, 2); (2, 3)]
+  /\ paragraphs_of (t_runes ex_te2) ex_in4 = [(0, 2); (2, 3); (3, 4)].
+Proof. split; reflexivity. Qed.
+(* "a\nא": two runs, the letter alef right-to-left; "א\r\nא": RTL, the LF alone left-to-right (no run from x/text: the
+   caller's direction), RTL *)
+Example ex_bidi_runs :
+  text_bidi ex_xb (t_runes ex_te1) ex_in3 = Some [(1, false); (2, true)]
+  /\ text_bidi ex_xb (t_runes ex_te2) ex_in4 = Some [(1, true); (2, false); (3, true)].
+Proof. split; reflexivity. Qed.
+Example ex_text_runs :
+  exists r1 r2, split_text_runs ex_te1 seg_zero ex_in3 = Ok [r1; r2]
+    /\ (i_end r1, d_prog (i_dir r1), i_end r2, d_prog (i_dir r2)) = (2, false, 3, true)
+    /\ parity_text_ok ex_xb (t_runes ex_te1) ex_in3 [r1; r2] = true.
+Proof. do 2 eexists. split; [vm_compute; reflexivity|]. split; vm_compute; reflexivity. Qed.
+(* the paragraph "א" is the second of the first text and the third of the second *)
+Example ex_independent :
+  In (2, 3) (paragraphs_of (t_runes ex_te1) ex_in3) /\ In (3, 4) (paragraphs_of (t_runes ex_te2) ex_in4)
+  /\ para_string (t_runes ex_te1) 2 3 = para_string (t_runes ex_te2) 3 4
+  /\ exists o1 o2, split_text_runs ex_te1 seg_zero ex_in3 = Ok o1 /\ split_text_runs ex_te2 seg_zero ex_in4 = Ok o2
+       /\ dir_at o1 2 = Some true /\ dir_at o2 3 = Some true.
+Proof.
+  split; [vm_compute; tauto|]. split; [vm_compute; tauto|]. split; [reflexivity|].
+  do 2 eexists. split; [vm_compute; reflexivity|]. split; [vm_compute; reflexivity|]. split; vm_compute; reflexivity.
+Qed.
+Example ex_text_history : exists s, run_history_text [(ex_te1, ex_in3); (ex_te2, ex_in4)] seg_zero = Ok s.
+Proof. eexists. vm_compute. reflexivity. Qed.
+Example ex_text_empty : i_end (set_end ex_in3 0) <= i_start (set_end ex_in3 0).
 Proof. cbn. lia. Qed.
